@@ -301,7 +301,22 @@ func (f *FuncCtx) fieldLoc(st *State, x *ast.SelectorExpr) (ref Term, owner *typ
 		if i < len(sel.Index())-1 {
 			ns, ok := types.Unalias(fv.Type()).Underlying().(*types.Struct)
 			if !ok {
-				unsup("promotion through pointer-embedded field at %s", f.pos(x))
+				// promotion through a pointer-embedded field: load the embedded pointer and continue in the pointee
+				pt, isPtr := types.Unalias(fv.Type()).Underlying().(*types.Pointer)
+				var pOwner *types.Named
+				var pSt *types.Struct
+				if isPtr {
+					pOwner, pSt = derefStruct(pt)
+				}
+				if pOwner == nil || pSt == nil {
+					unsup("promotion through pointer-embedded field at %s", f.pos(x))
+				}
+				hn, hs := f.w.fieldHeap(owner, basePath+strings.Join(names, "."), fv.Type(), f.bv)
+				f.impure = append(f.impure, "reads heap field "+hn)
+				nref := Term{S: "(select " + f.heapTerm(st, hn, hs) + " " + ref.S + ")", Sort: SInt, GoT: fv.Type()}
+				f.panicIf(st, "(= "+nref.S+" 0)", f.site("nilderef"))
+				ref, owner, basePath, names = nref, pOwner, "", nil
+				ns = pSt
 			}
 			cur = ns
 		}
